@@ -190,7 +190,7 @@ class RequestHandlerBase(MethodView):
 
     def reset_error_counter(self, usage: str, code: int) -> None:
         key = f'error-{usage}-{code:06d}'
-        flask.session[key] = None
+        flask.session[key] = 0
 
 
 class HTMLHandlerBase(RequestHandlerBase):
